@@ -116,6 +116,8 @@ func probeScript(batch bool) []SEntry {
 
 // buildFromSettings: options to the constructor in the listed order, builder calls afterwards in
 // the listed order.
+var rawOptCount int
+
 func buildFromSettings(sc CScen, h *hnode, tl *tagLog) flyt.Node {
 	ms := func(n int) time.Duration { return time.Duration(n) * time.Millisecond }
 	if !sc.Batch {
@@ -184,6 +186,13 @@ func buildFromSettings(sc CScen, h *hnode, tl *tagLog) flyt.Node {
 				opt, bld = flyt.WithExecFallbackFunc(f), func(b *flyt.NodeBuilder) { b.WithExecFallbackFunc(f) }
 			}
 			if s.Form == "opt" {
+				// a base option may be spelt as a NodeOption or as a plain func(*BaseNode): every other one
+				if no, ok := opt.(flyt.NodeOption); ok {
+					rawOptCount++
+					if rawOptCount%2 == 1 {
+						opt = (func(*flyt.BaseNode))(no)
+					}
+				}
 				opts = append(opts, opt)
 			} else {
 				later = append(later, bld)
